@@ -234,8 +234,35 @@ def compare_mapping_contract():
         return [("equal  <=>  same number of keys, every key of the first is a key of the second and the values "
                  "stored under the SAME key are equal (independent of insertion order)", tb == want)]
     loops = {("Comparator.compare_mapping", "obj1"): LoopSpec("obj1", inv=lambda I, st, pre: pre.all(holder["f"]), name="keys-match")}
-    return FunctionContract("param.parameterized:Comparator.compare_mapping", "C03", setup, post, configure=configure,
-                            loops=loops, name="Comparator.compare_mapping")
+    c = FunctionContract("param.parameterized:Comparator.compare_mapping", "C03", setup, post, configure=configure,
+                         loops=loops, name="Comparator.compare_mapping")
+    c.static_replay = COMPARATOR_REPLAY
+    c.static_witness = "pairs of plain containers (dicts with equal / reordered / different keys, None values; nested lists and tuples) vs =="
+    return c
+
+
+COMPARATOR_REPLAY = '''import sys, os, itertools
+sys.path.insert(0, os.environ.get('PYVC_REPO', '/repo'))
+import param
+from param.parameterized import Comparator
+bad = []
+atoms = [None, 0, 1, 'a', '', (1, 2), [1], [1, 2], {'k': 1}]
+dicts = [{}, {'a': None}, {'b': None}, {'a': 1}, {'a': 1, 'b': 2}, {'b': 2, 'a': 1}, {'a': None, 'b': None}, {'c': None, 'd': None},
+         {'a': [1], 'b': 2}, {'b': 2, 'a': [1]}, {'a': [1], 'b': 3}, {'a': {'x': None}}, {'a': {'y': None}}, {1: 'x'}, {2: 'x'}]
+seqs = [[], [1], [2], [1, 2], [2, 1], [[1], 2], [[1], 3], (1,), (1, 2), [None], [0], [{'a': 1}], [{'a': 2}], [{'b': 1}]]
+for fam in (dicts, seqs, atoms):
+    for x, y in itertools.product(fam, repeat=2):
+        want = (x == y) and type(x) is type(y)
+        got = Comparator.is_equal(x, y)
+        if bool(got) != want:
+            bad.append('is_equal(%r, %r) is %r' % (x, y, got))
+if bad:
+    print('REPRODUCED: C03 Comparator.is_equal disagrees with equality on plain values (a change suppressed or a non-change reported):')
+    for b in bad[:8]:
+        print('  ', b)
+    sys.exit(1)
+print('NOT-REPRODUCED'); sys.exit(0)
+'''
 
 
 _c03_base2 = contracts
